@@ -816,6 +816,31 @@ Definition export_var_names (strict : bool) (names : list (list byte)) : option 
     (Some (map_vars lead prefix_all 0 names repl), strict && replaced)
   else (None, false).
 
+(** ** ASCII node lines of the exporter: export.rs, [if ascii] branches of the node loops
+
+    ["{node_id} {desc} 0 0\n"] for terminals, ["{node_id} {var_idx} {then} {else}\n"] for
+    inner nodes; a negative reference is a complemented edge. *)
+Inductive anode :=
+| ATerm (desc : list byte)
+| AInner (v : N) (t e : Z).
+
+Definition dec_z (z : Z) : list byte :=
+  if (z <? 0)%Z then 45 :: dec (Z.abs_N z) else dec (Z.abs_N z).
+
+Definition export_ascii_line (node_id : N) (nd : anode) : list byte :=
+  match nd with
+  | ATerm desc => dec node_id ++ [32] ++ desc ++ [32; 48; 32; 48; 10]
+  | AInner v t e => dec node_id ++ [32] ++ dec v ++ [32] ++ dec_z t ++ [32] ++ dec_z e ++ [10]
+  end.
+
+Fixpoint export_ascii_from (node_id : N) (todo : list anode) : list byte :=
+  match todo with
+  | [] => []
+  | nd :: r => export_ascii_line node_id nd ++ export_ascii_from (node_id + 1) r
+  end.
+
+Definition export_ascii_nodes (dag : list anode) : list byte := export_ascii_from 1 dag.
+
 (** the name the importer reports for the diagram: [.dd] value, trimmed *)
 Fixpoint trim_end_rev (s : list byte) : list byte :=
   match s with
